@@ -63,6 +63,8 @@ def family(rp):
     f.add("method-call-surplus-argument", "class A\n    def m(self, a: Int) -> Int => a\ndef z := A()\ndef r: Int := z.m(1, 2)", "reject")
     f.add("method-call-default-omitted", "class A\n    def m(self, a: Int, b: Int := 2) -> Int => a\ndef z := A()\ndef r: Int := z.m(1)", "accept")
     f.add("method-call-second-wrong-type", "class A\n    def m(self, a: Int, b: Int) -> Int => a\ndef z := A()\ndef r: Int := z.m(1, \"s\")", "reject")
+    f.add("method-call-tuple-argument", "class Acc\n    def total: Int := 0\n    def add(self, amount: Int) -> Int => self.total + amount\ndef a := Acc()\ndef r: Int := a.add((5, 6))", "reject")
+    f.add("operator-tuple-operand", "def x: Int := 3\ndef pair := (1, 2)\ndef r := x - pair", "reject")
     f.add("method-call-subtype", "class A\n    def m(self, a: Float) -> Float => a\ndef z := A()\ndef r: Float := z.m(1)", "accept")
     f.add("method-call-supertype", "class A\n    def m(self, a: Int) -> Int => a\ndef z := A()\ndef r: Int := z.m(1.5)", "reject")
     f.add("operator-wrong-operand", "def r := 1 + \"s\"", "reject")
